@@ -32,6 +32,7 @@ def check(run, prog, tier):
     run.trusted += ["struct pack/unpack inverse on in-range values", "ASCII decode/encode preserve length and content",
                     "dataclass equality is field equality"]
     sd = SD(run, prog)
+    sd.strict_guards = False  # how malformed input is rejected is C02/C03's business, not this property's
     sd.entry_writer("D1")
     sd.entry_reader("D1", guards_rule="D1")
     sd.option_header("D1")
@@ -63,8 +64,8 @@ def check(run, prog, tier):
     sub = report.Run("C01", tier, run.seed, quiet=True)
     C01.check(sub, prog, tier)
     for o in sub.obs:
-        if o.rule == "L5":
-            continue
+        if o.rule == "L5" or ":guard[" in o.construct:
+            continue  # the datagram loop and the rejection of malformed headers are not part of this property
         run.ob("D3", o.construct, o.ok, o.loc, o.msg, o.detail, o.nontrivial)
     run.paths += sub.paths
     run.abstract_cases += sub.abstract_cases
